@@ -54,6 +54,9 @@ def main():
         emit({"ev": "fatal", "why": f"PYTHONHASHSEED={os.environ.get('PYTHONHASHSEED')} != {want}"})
         sys.exit(3)
     eng = get_engine(cfg["engine"])
+    from .boot import SIM
+
+    SIM.phase_cb = phase  # (this module runs as __main__: engines must not import it by name)
     try:
         eng.boot(cfg)
     except BaseException as e:
